@@ -6,6 +6,7 @@ import (
 	"math/big"
 
 	"github.com/ElrondNetwork/elrond-vm-common/data"
+	"github.com/ElrondNetwork/elrond-vm-common/data/esdt"
 	"github.com/ElrondNetwork/elrond-vm-common/zz_verif/verif"
 )
 
@@ -71,7 +72,10 @@ func C14_BigIntCasterRoundTrip() {
 		}
 	}
 	y, err2 := c.Unmarshal(buf[:n])
-	zeroDirty := verif.And(dirty, x != nil, x.Sign() == 0)
+	zeroDirty := false
+	if x != nil {
+		zeroDirty = verif.And(dirty, x.Sign() == 0)
+	}
 	verif.AssertExcept("unmarshal-ok", err2 == nil, "F11", zeroDirty)
 	if err2 != nil {
 		return
@@ -85,9 +89,12 @@ func C14_BigIntCasterRoundTrip() {
 			verif.Assert("equal-agrees", verif.Or(zeroDirty, c.Equal(x, y)))
 		}
 	}
-	verif.Reach("negative", verif.And(x != nil, neg, x.Sign() < 0))
-	verif.Reach("zero", verif.And(x != nil, x.Sign() == 0))
-	verif.Reach("nil", x == nil)
+	if x != nil {
+		verif.Reach("negative", verif.And(neg, x.Sign() < 0))
+		verif.Reach("zero", x.Sign() == 0)
+	} else {
+		verif.Reach("nil", true)
+	}
 	verif.ObserveBytes("buf", buf)
 }
 
@@ -122,5 +129,281 @@ func C14_BigIntCasterDecodeTotal() {
 		verif.Assert("error-shape", y == nil)
 		verif.Reach("rejected", true)
 	}
+	verif.ObserveBool("ok", err == nil)
+}
+
+// ---------------------------------------------------------------------------------------
+// (b)-(d): the generated protobuf code against an in-harness reference encoder
+
+func refVarint(v uint64) []byte {
+	var out []byte
+	for v >= 0x80 {
+		out = append(out, byte(v)|0x80)
+		v >>= 7
+	}
+	return append(out, byte(v))
+}
+
+func refBytesField(tag byte, b []byte, always bool) []byte {
+	if len(b) == 0 && !always {
+		return nil
+	}
+	out := []byte{tag}
+	out = append(out, refVarint(uint64(len(b)))...)
+	return append(out, b...)
+}
+
+func refBig(x *big.Int) []byte {
+	if x == nil {
+		return []byte{0}
+	}
+	if x.Sign() == 0 {
+		return []byte{0, 0}
+	}
+	sign := byte(0)
+	if x.Sign() < 0 {
+		sign = 1
+	}
+	return append([]byte{sign}, new(big.Int).Abs(x).Bytes()...)
+}
+
+func refMeta(m *esdt.MetaData) []byte {
+	var out []byte
+	if m.Nonce != 0 {
+		out = append(append(out, 0x08), refVarint(m.Nonce)...)
+	}
+	out = append(out, refBytesField(0x12, m.Name, false)...)
+	out = append(out, refBytesField(0x1a, m.Creator, false)...)
+	if m.Royalties != 0 {
+		out = append(append(out, 0x20), refVarint(uint64(m.Royalties))...)
+	}
+	out = append(out, refBytesField(0x2a, m.Hash, false)...)
+	for _, u := range m.URIs {
+		out = append(out, refBytesField(0x32, u, true)...)
+	}
+	out = append(out, refBytesField(0x3a, m.Attributes, false)...)
+	return out
+}
+
+func refToken(t *esdt.ESDigitalToken) []byte {
+	var out []byte
+	if t.Type != 0 {
+		out = append(append(out, 0x08), refVarint(uint64(t.Type))...)
+	}
+	out = append(out, refBytesField(0x12, refBig(t.Value), true)...)
+	out = append(out, refBytesField(0x1a, t.Properties, false)...)
+	if t.TokenMetaData != nil {
+		out = append(out, refBytesField(0x22, refMeta(t.TokenMetaData), true)...)
+	}
+	out = append(out, refBytesField(0x2a, t.Reserved, false)...)
+	return out
+}
+
+func smallBig(tag string) *big.Int {
+	switch verif.Choose(tag+".kind", 3) {
+	case 0:
+		return nil
+	case 1:
+		return new(big.Int).SetBytes(verif.BytesLen(tag+".mag", 0, 2))
+	}
+	x := new(big.Int).SetBytes(verif.BytesLen(tag+".mag", 1, 2))
+	return x.Neg(x)
+}
+
+// small7 is a scalar field value: symbolic below 2^7 in the thorough tier; one of the boundary
+// values 0 / 1 / 127 / 128 (two-byte varint) in the quick tier - the full 64-bit range of the
+// varint kernel is C14_VarintAllWidths' subject.
+func small7(tag string) uint64 {
+	if verif.Thorough() {
+		v := verif.U8(tag)
+		verif.Assume(v < 128)
+		return uint64(v)
+	}
+	return []uint64{0, 1, 127, 128}[verif.Choose(tag, 4)]
+}
+
+func arbMeta(tag string) *esdt.MetaData {
+	m := &esdt.MetaData{Nonce: small7(tag + ".nonce"), Royalties: uint32(small7(tag + ".royalties"))}
+	m.Name = verif.BytesLen(tag+".name", 0, 1)
+	m.Creator = verif.BytesLen(tag+".creator", 0, 1)
+	m.Hash = verif.BytesLen(tag+".hash", 0, 1)
+	m.Attributes = verif.BytesLen(tag+".attr", 0, 1)
+	n := verif.Choose(tag+".nuris", 3)
+	for i := 0; i < n; i++ {
+		m.URIs = append(m.URIs, verif.BytesLen(tag+".uri", 0, 1))
+	}
+	return m
+}
+
+func metaRoundEq(a, b *esdt.MetaData) bool {
+	if a == nil || b == nil {
+		return a == nil && b == nil
+	}
+	if len(a.URIs) != len(b.URIs) {
+		return false
+	}
+	r := verif.And(a.Nonce == b.Nonce, a.Royalties == b.Royalties, len(a.Name) == len(b.Name), verif.BytesEq(a.Name, b.Name),
+		len(a.Creator) == len(b.Creator), verif.BytesEq(a.Creator, b.Creator), len(a.Hash) == len(b.Hash), verif.BytesEq(a.Hash, b.Hash),
+		len(a.Attributes) == len(b.Attributes), verif.BytesEq(a.Attributes, b.Attributes))
+	for i := range a.URIs {
+		r = verif.And(r, len(a.URIs[i]) == len(b.URIs[i]), verif.BytesEq(a.URIs[i], b.URIs[i]))
+	}
+	return r
+}
+
+func init() {
+	reg("C14_VarintAllWidths", C14_VarintAllWidths)
+	reg("C14_MetaDataRoundTrip", C14_MetaDataRoundTrip)
+	reg("C14_TokenRoundTrip", C14_TokenRoundTrip)
+	reg("C14_RolesRoundTrip", C14_RolesRoundTrip)
+	reg("C14_TokenDecodeTotal", C14_TokenDecodeTotal)
+	reg("C14_RolesDecodeTotal", C14_RolesDecodeTotal)
+	reg("C14_MetaDataDecodeTotal", C14_MetaDataDecodeTotal)
+}
+
+// C14_VarintAllWidths: the varint kernel over all 64-bit values (10 length classes), through
+// MetaData.Nonce: bytes = 08‖varint(v), size agrees, decode returns v.
+func C14_VarintAllWidths() {
+	v := verif.U64("v")
+	verif.AllocBound(16)
+	m := &esdt.MetaData{Nonce: v}
+	b, err := m.Marshal()
+	verif.Assert("marshal-ok", err == nil)
+	verif.Assert("size-equals-length", len(b) == m.Size())
+	var ref []byte
+	if v != 0 {
+		ref = append([]byte{0x08}, refVarint(v)...)
+	}
+	verif.Assert("matches-reference", verif.And(len(b) == len(ref), verif.BytesEq(b, ref)))
+	var u esdt.MetaData
+	err = u.Unmarshal(b)
+	verif.Assert("unmarshal-ok", err == nil)
+	verif.Assert("roundtrip", u.Nonce == v)
+	verif.Reach("ten-bytes", len(b) == 11)
+	verif.Reach("one-byte", len(b) == 2)
+	verif.ObserveBytes("b", b)
+}
+
+func C14_MetaDataRoundTrip() {
+	verif.AllocBound(64)
+	m := arbMeta("m")
+	b, err := m.Marshal()
+	verif.Assert("marshal-ok", err == nil)
+	verif.Assert("size-equals-length", len(b) == m.Size())
+	ref := refMeta(m)
+	verif.Assert("matches-reference", verif.And(len(b) == len(ref), verif.BytesEq(b, ref)))
+	b2, _ := m.Marshal()
+	verif.Assert("deterministic", verif.And(len(b) == len(b2), verif.BytesEq(b, b2)))
+	var u esdt.MetaData
+	err = u.Unmarshal(b)
+	verif.Assert("unmarshal-ok", err == nil)
+	verif.Assert("roundtrip", metaRoundEq(m, &u))
+	verif.Reach("two-uris", len(m.URIs) == 2)
+	verif.ObserveBytes("b", b)
+}
+
+func C14_TokenRoundTrip() {
+	verif.AllocBound(96)
+	t := &esdt.ESDigitalToken{Type: uint32(small7("type")), Value: smallBig("value")}
+	t.Properties = verif.BytesLen("props", 0, 2)
+	t.Reserved = verif.BytesLen("reserved", 0, 1)
+	if verif.Bool("hasMeta") {
+		if verif.Thorough() {
+			t.TokenMetaData = arbMeta("m")
+		} else {
+			t.TokenMetaData = &esdt.MetaData{Nonce: small7("m.nonce"), Name: verif.BytesLen("m.name", 0, 1), URIs: [][]byte{verif.BytesLen("m.uri", 0, 1)}}
+		}
+	}
+	b, err := t.Marshal()
+	verif.Assert("marshal-ok", err == nil)
+	verif.Assert("size-equals-length", len(b) == t.Size())
+	ref := refToken(t)
+	verif.Assert("matches-reference", verif.And(len(b) == len(ref), verif.BytesEq(b, ref)))
+	u := &esdt.ESDigitalToken{}
+	u.Reset()
+	err = u.Unmarshal(b)
+	verif.Assert("unmarshal-ok", err == nil)
+	verif.Assert("roundtrip-type", u.Type == t.Type)
+	if t.Value == nil {
+		verif.Assert("roundtrip-value-nil", u.Value == nil)
+	} else {
+		verif.Assert("roundtrip-value-present", u.Value != nil)
+		if u.Value != nil {
+			verif.Assert("roundtrip-value", u.Value.Cmp(t.Value) == 0)
+		}
+	}
+	verif.Assert("roundtrip-props", verif.And(len(u.Properties) == len(t.Properties), verif.BytesEq(u.Properties, t.Properties)))
+	verif.Assert("roundtrip-reserved", verif.And(len(u.Reserved) == len(t.Reserved), verif.BytesEq(u.Reserved, t.Reserved)))
+	verif.Assert("roundtrip-metadata", metaRoundEq(t.TokenMetaData, u.TokenMetaData))
+	if t.Value != nil {
+		verif.Reach("negative", t.Value.Sign() < 0)
+	}
+	verif.Reach("with-metadata", t.TokenMetaData != nil)
+	verif.ObserveBytes("b", b)
+}
+
+func C14_RolesRoundTrip() {
+	verif.AllocBound(64)
+	r := &esdt.ESDTRoles{}
+	n := verif.Choose("n", 3)
+	for i := 0; i < n; i++ {
+		r.Roles = append(r.Roles, verif.BytesLen("role", 0, 2))
+	}
+	b, err := r.Marshal()
+	verif.Assert("marshal-ok", err == nil)
+	verif.Assert("size-equals-length", len(b) == r.Size())
+	var ref []byte
+	for _, x := range r.Roles {
+		ref = append(ref, refBytesField(0x0a, x, true)...)
+	}
+	verif.Assert("matches-reference", verif.And(len(b) == len(ref), verif.BytesEq(b, ref)))
+	verif.Assert("empty-list-is-empty-string", (n == 0) == (len(b) == 0))
+	var u esdt.ESDTRoles
+	err = u.Unmarshal(b)
+	verif.Assert("unmarshal-ok", err == nil)
+	verif.Assert("roundtrip-count", len(u.Roles) == len(r.Roles))
+	if len(u.Roles) == len(r.Roles) {
+		for i := range r.Roles {
+			verif.Assert("roundtrip-role", verif.And(len(u.Roles[i]) == len(r.Roles[i]), verif.BytesEq(u.Roles[i], r.Roles[i])))
+		}
+	}
+	verif.Reach("two-roles", n == 2)
+	verif.ObserveBytes("b", b)
+}
+
+func decodeLen() int {
+	if verif.Thorough() {
+		return 6
+	}
+	return 4
+}
+
+func C14_TokenDecodeTotal() {
+	buf := verif.BytesLen("buf", 0, decodeLen())
+	verif.AllocBound(len(buf) + 2)
+	u := &esdt.ESDigitalToken{}
+	err := u.Unmarshal(buf)
+	verif.Reach("accepted", err == nil)
+	verif.Reach("rejected", err != nil)
+	verif.ObserveBool("ok", err == nil)
+}
+
+func C14_RolesDecodeTotal() {
+	buf := verif.BytesLen("buf", 0, decodeLen())
+	verif.AllocBound(len(buf) + 2)
+	u := &esdt.ESDTRoles{}
+	err := u.Unmarshal(buf)
+	verif.Reach("accepted", err == nil)
+	verif.Reach("rejected", err != nil)
+	verif.ObserveBool("ok", err == nil)
+}
+
+func C14_MetaDataDecodeTotal() {
+	buf := verif.BytesLen("buf", 0, decodeLen())
+	verif.AllocBound(len(buf) + 2)
+	u := &esdt.MetaData{}
+	err := u.Unmarshal(buf)
+	verif.Reach("accepted", err == nil)
+	verif.Reach("rejected", err != nil)
 	verif.ObserveBool("ok", err == nil)
 }
